@@ -590,6 +590,26 @@ def wPkgName : St :=
 theorem methodset_counterexample_pkgname : ¬ methodset_correct_full := fun h => by
   have := h wPkgName 27 (mM "m" "q"); revert this; decide
 
+/-- The intended `_partial` form of `methodset_correct` (NOT claimed, NOT proved here): on types whose diagnosis is clean
+    — no selector ambiguous at its minimal depth (`amb`), no field/method name clash (`fieldhide`), no pointer-receiver
+    shadowing (`ptrshadow`), injective type strings in the embedding closure (`seenstr`), no `Object.prototype` names, one
+    package qualifier per name, not a defined pointer type — `$methodSet` is the Go method set. This statement is what the
+    correspondence run checks on every generated `clean` probe (model vs spec vs real prelude); its general proof (two
+    breadth-first walks with different `seen` sets) is left open. What IS proved about method sets: the seven
+    counterexamples above, and `assert_correct_partial` relative to agreement of the two method sets. -/
+def methodset_correct_clean : Prop :=
+  ∀ (s : St) (t : Nat),
+    (let g := diag s (ptrOfM s) t
+     g.amb = false ∧ g.fieldhide = false ∧ g.ptrshadow = false ∧ g.seenstr = false ∧ g.protoname = false ∧
+       g.pkgname = false ∧ g.namedptr = false) →
+    ∀ m, m ∈ methodSet s t ↔ m ∈ specMethodSet s (ptrOfM s) t
+
+/-- the hypothesis of `methodset_correct_clean` is satisfiable by a non-trivial type: `*T` of the pointer-shadow witness
+    (own pointer-receiver `M` shadows the promoted `E.M`; both walks agree on it) -/
+example : (let g := diag wPtrShadow (ptrOfM wPtrShadow) 24
+     g.amb = false ∧ g.fieldhide = false ∧ g.seenstr = false ∧ g.protoname = false ∧ g.pkgname = false ∧ g.namedptr = false) ∧
+    methodSet wPtrShadow 24 = specMethodSet wPtrShadow (ptrOfM wPtrShadow) 24 := by decide
+
 /-! ## 4. `assert_correct`: every SEQUENCE of assertions answers as Go does -/
 
 /-- full-strength statement (NOT claimed: false today by memo poisoning, and wherever method sets are wrong) -/
